@@ -21,6 +21,16 @@ func init() {
 		{Name: "x64 f32.min does not merge the two orders", File: "internal/native/wat2x64/func.go", Old: "\t\tfmt.Fprintf(w, \"    orps xmm4, xmm6 # +0/-0\\n\")\n", New: "", Expect: "x64-minmax-semantics :: f32.min"},
 		{Name: "x64 f64.max merges the two orders with or", File: "internal/native/wat2x64/func.go", Old: "\"    andpd xmm4, xmm6 # +0/-0\\n\"", New: "\"    orpd xmm4, xmm6 # +0/-0\\n\"", Expect: "x64-minmax-semantics :: f64.max"},
 		{Name: "x64 f32.max answers the second operand for a NaN", File: "internal/native/wat2x64/func.go", Old: "\t\tfmt.Fprintf(w, \"    ucomiss xmm4, xmm5\\n\")\n\t\tfmt.Fprintf(w, \"    jp   %s # NaN\\n\", labelNaN)\n\t\tfmt.Fprintf(w, \"    movaps xmm6, xmm5\\n\")\n\t\tfmt.Fprintf(w, \"    maxss xmm6, xmm4\\n\")", New: "\t\tfmt.Fprintf(w, \"    ucomiss xmm4, xmm5\\n\")\n\t\tfmt.Fprintf(w, \"    movaps xmm6, xmm5\\n\")\n\t\tfmt.Fprintf(w, \"    maxss xmm6, xmm4\\n\")", Expect: "x64-minmax-semantics :: f32.max"},
+		{Name: "x64 i64.clz stores its result with a dword operand", File: "internal/native/wat2x64/func.go", Old: "\"    lzcnt rax, rax\\n\")\n\t\tfmt.Fprintf(w, \"    mov   qword ptr [rbp%+d], rax\\n\", ret0)", New: "\"    lzcnt rax, rax\\n\")\n\t\tfmt.Fprintf(w, \"    mov   dword ptr [rbp%+d], rax\\n\", ret0)", Expect: "x64-operand-size-agreement"},
+		{Name: "x64 i64.trunc_f32_u forgets the top bit", File: "internal/native/wat2x64/func.go", Old: "\t\tfmt.Fprintf(w, \"    xor       rax, r10\\n\")\n", New: "", Expect: "x64-conversion-semantics :: i64.trunc_f32_u"},
+		{Name: "x64 convert_i64_u halves without the sticky bit", File: "internal/native/wat2x64/func.go", Old: "\t\tfmt.Fprintf(w, \"    or       r10, rax\\n\")\n", New: "", Expect: "x64-conversion-semantics :: f32.convert_i64_u"},
+		{Name: "x64 f64.convert_i32_u converts the signed 32-bit register", File: "internal/native/wat2x64/func.go", Old: "\t\tfmt.Fprintf(w, \"    # f64.convert_i32_u\\n\")\n\t\tfmt.Fprintf(w, \"    mov      eax, dword ptr [rbp%+d]\\n\", sp0)\n\t\tfmt.Fprintf(w, \"    cvtsi2sd xmm4, rax\\n\")", New: "\t\tfmt.Fprintf(w, \"    # f64.convert_i32_u\\n\")\n\t\tfmt.Fprintf(w, \"    mov      eax, dword ptr [rbp%+d]\\n\", sp0)\n\t\tfmt.Fprintf(w, \"    cvtsi2sd xmm4, eax\\n\")", Expect: "x64-conversion-semantics :: f64.convert_i32_u"},
+		{Name: "x64 f64.convert_i32_s loads its operand as a qword", File: "internal/native/wat2x64/func.go", Old: "\t\tfmt.Fprintf(w, \"    # f64.convert_i32_s\\n\")\n\t\tfmt.Fprintf(w, \"    mov      eax, dword ptr [rbp%+d]\\n\", sp0)\n\t\tfmt.Fprintf(w, \"    cvtsi2sd xmm4, eax\\n\")", New: "\t\tfmt.Fprintf(w, \"    # f64.convert_i32_s\\n\")\n\t\tfmt.Fprintf(w, \"    mov      rax, qword ptr [rbp%+d]\\n\", sp0)\n\t\tfmt.Fprintf(w, \"    cvtsi2sd xmm4, rax\\n\")", Expect: "x64-conversion-semantics :: f64.convert_i32_s"},
+		{Name: "x64 i64.shr_s shifts in zeros", File: "internal/native/wat2x64/func.go", Old: "\"    sar  rax, cl # cl 是 rcx 低8位\\n\"", New: "\"    shr  rax, cl # cl 是 rcx 低8位\\n\"", Expect: "x64-template-semantics :: i64.shr_s"},
+		{Name: "x64 i32.ctz counts leading zeros", File: "internal/native/wat2x64/func.go", Old: "\"    tzcnt eax, eax\\n\"", New: "\"    lzcnt eax, eax\\n\"", Expect: "x64-template-semantics :: i32.ctz"},
+		{Name: "x64 f32.floor rounds to nearest", File: "internal/native/wat2x64/func.go", Old: "\"    roundss xmm4, xmm4, 1\\n\"", New: "\"    roundss xmm4, xmm4, 0\\n\"", Expect: "x64-template-semantics :: f32.floor"},
+		{Name: "x64 i32.lt_s compares unsigned", File: "internal/native/wat2x64/func.go", Old: "\"    setl  al\\n\"", New: "\"    setb  al\\n\"", Expect: "x64-template-semantics :: i32.lt_s"},
+		{Name: "x64 i32.rotr rotates an undefined upper half in", File: "internal/native/wat2x64/func.go", Old: "\"    ror  eax, cl # cl 是 ecx 低8位\\n\"", New: "\"    ror  rax, cl # cl 是 ecx 低8位\\n\"", Expect: "x64-template-semantics :: i32.rotr"},
 		{Name: "x64 memory.init comment swallows the next instruction", File: "internal/native/wat2x64/func.go", Old: "fmt.Fprintf(w, \"    # memory.init\\n\")", New: "fmt.Fprintf(w, \"    # memory.init\")", Expect: "line-terminated :: wat2x64 wat2X64Worker.buildFunc_ins"},
 		{Name: "x64 select loses the newline after its last store", File: "internal/native/wat2x64/func.go", Old: "\t\tdefault:\n\t\t\tunreachable()\n\t\t}\n\t\tfmt.Fprintln(w)\n\n\tcase token.INS_LOCAL_GET:", New: "\t\tdefault:\n\t\t\tunreachable()\n\t\t}\n\n\tcase token.INS_LOCAL_GET:", Expect: "line-terminated :: wat2x64 wat2X64Worker.buildFunc"},
 		{Name: "loong64 table offset comment swallows the ori", File: "internal/native/wat2la/table.go", Old: "\"    lu12i.w   $t1, 0x%X # offset\\n\"", New: "\"    lu12i.w   $t1, 0x%X\\n # offset\"", Expect: "line-terminated :: wat2la wat2laWorker.buildTable"},
@@ -417,6 +427,9 @@ func runC02(c *Ctx) {
 	c02RemGuard(c, p, x64)
 	if pk := p.Pkg("internal/native/wat2x64"); pk != nil {
 		c02MinMax(c, p, pk)
+		c02OperandSize(c, p, pk)
+		c02Conversions(c, p, pk)
+		c02TemplateSemantics(c, p, pk)
 	}
 	c02Locals(c, p)
 	if pk := p.Pkg("internal/native/wat2x64"); pk != nil {
